@@ -5,12 +5,20 @@ use crate::codec::Codec;
 use crate::seq::SeqSlice;
 use crate::Bs;
 
+/// Scale a symbol position to a bit position. The multiplication must not wrap (it would in
+/// release builds), otherwise a position far beyond the end could select symbols instead of panicking.
+#[inline]
+fn bit_index<A: Codec>(i: usize) -> usize {
+    i.checked_mul(A::BITS as usize)
+        .expect("sequence index out of range")
+}
+
 impl<A: Codec> Index<Range<usize>> for SeqSlice<A> {
     type Output = SeqSlice<A>;
 
     fn index(&self, range: Range<usize>) -> &Self::Output {
-        let s = range.start * A::BITS as usize;
-        let e = range.end * A::BITS as usize;
+        let s = bit_index::<A>(range.start);
+        let e = bit_index::<A>(range.end);
         let bs: *const Bs = ptr::from_ref::<Bs>(&self.bs[s..e]);
         unsafe { &*(bs as *const SeqSlice<A>) }
     }
@@ -20,7 +28,7 @@ impl<A: Codec> Index<RangeTo<usize>> for SeqSlice<A> {
     type Output = SeqSlice<A>;
 
     fn index(&self, range: RangeTo<usize>) -> &Self::Output {
-        let e = range.end * A::BITS as usize;
+        let e = bit_index::<A>(range.end);
         let bs: *const Bs = ptr::from_ref::<Bs>(&self.bs[..e]);
         unsafe { &*(bs as *const SeqSlice<A>) }
     }
@@ -30,7 +38,7 @@ impl<A: Codec> Index<RangeToInclusive<usize>> for SeqSlice<A> {
     type Output = SeqSlice<A>;
 
     fn index(&self, range: RangeToInclusive<usize>) -> &Self::Output {
-        let e = (range.end + 1) * A::BITS as usize;
+        let e = bit_index::<A>(range.end.checked_add(1).expect("sequence index out of range"));
         let bs: *const Bs = ptr::from_ref::<Bs>(&self.bs[..e]);
         unsafe { &*(bs as *const SeqSlice<A>) }
     }
@@ -40,8 +48,8 @@ impl<A: Codec> Index<RangeInclusive<usize>> for SeqSlice<A> {
     type Output = SeqSlice<A>;
 
     fn index(&self, range: RangeInclusive<usize>) -> &Self::Output {
-        let s = range.start() * A::BITS as usize;
-        let e = (range.end() + 1) * A::BITS as usize;
+        let s = bit_index::<A>(*range.start());
+        let e = bit_index::<A>(range.end().checked_add(1).expect("sequence index out of range"));
 
         let bs: *const Bs = ptr::from_ref::<Bs>(&self.bs[s..e]);
         unsafe { &*(bs as *const SeqSlice<A>) }
@@ -52,7 +60,7 @@ impl<A: Codec> Index<RangeFrom<usize>> for SeqSlice<A> {
     type Output = SeqSlice<A>;
 
     fn index(&self, range: RangeFrom<usize>) -> &Self::Output {
-        let s = range.start * A::BITS as usize;
+        let s = bit_index::<A>(range.start);
         let bs: *const Bs = ptr::from_ref::<Bs>(&self.bs[s..]);
         unsafe { &*(bs as *const SeqSlice<A>) }
     }
@@ -71,8 +79,8 @@ impl<A: Codec> Index<usize> for SeqSlice<A> {
     type Output = SeqSlice<A>;
 
     fn index(&self, i: usize) -> &Self::Output {
-        let s = i * A::BITS as usize;
-        let e = s + A::BITS as usize;
+        let s = bit_index::<A>(i);
+        let e = s.checked_add(A::BITS as usize).expect("sequence index out of range");
         let bs: *const Bs = ptr::from_ref::<Bs>(&self.bs[s..e]);
         unsafe { &*(bs as *const SeqSlice<A>) }
     }
